@@ -78,7 +78,9 @@ def common_input_helpers(ctx, R):
         e, val = d[-1][2], d[-1][3]
         over = (e[1] == 'Gt' and val == 1) or (e[1] == 'Le' and val == 0)
         valexpr = e[2]
-        ok_val = any(x[0] == 'index' and x[1] == ('citem', 'raw::common_inputs::COMMON_INPUTS') for x in walk(valexpr)) and any(x[0] == 'bin' and x[1] == 'Add' and x[3] == ('const', 1) for x in walk(valexpr))
+        plus1 = any(x[0] == 'bin' and x[1] == 'Add' and x[3] == ('const', 1) for x in walk(valexpr)) or \
+            any(is_call(x, 'wrapping_add') and len(x[2]) == 2 and x[2][1] == ('const', 1) for x in walk(valexpr))        # u8::wrapping_add(1) = (x + 1) % 256
+        ok_val = any(x[0] == 'index' and x[1] == ('citem', 'raw::common_inputs::COMMON_INPUTS') for x in walk(valexpr)) and plus1
         ok_max = e[3][0] == 'param'
         if over:
             good['over'] = rv == ('const', 0) and ok_val and ok_max
@@ -241,12 +243,14 @@ def state_and_sizes_bits(ctx):
         ok = False
         if len(rets) == 1:
             rv = rets[0][1]
-            if rv[0] == 'bin' and rv[1] == 'Eq' and rv[3][0] == 'const':
+            if rv[0] == 'bin' and rv[1] in ('Eq', 'Ne') and rv[3][0] == 'const':
+                # the tested expression isolates bit 6 of the state byte at some position k (`x & 0x40`, `(x >> 6) & 1`, ...):
+                # `== 1 << k` or `!= 0` mean "bit set"
                 b = ev(rv[2], env, 8)
-                ok = b == [0] * 6 + [old[6], 0] and rv[3][1] == 0x40
-            elif rv[0] == 'bin' and rv[1] == 'Ne' and rv[3] == ('const', 0):
-                b = ev(rv[2], env, 8)
-                ok = b == [0] * 6 + [old[6], 0]
+                if b is not None:
+                    pos = [i for i, x in enumerate(b) if x == old[6]]
+                    clean = len(pos) == 1 and all(x == 0 for i, x in enumerate(b) if i != pos[0])
+                    ok = clean and ((rv[1] == 'Eq' and rv[3][1] == (1 << pos[0])) or (rv[1] == 'Ne' and rv[3][1] == 0))
         ctx.check(R2, ok, 'is_final_state', 'is_final_state must test bit 6 of the state byte', fn=f)
     f = lib.fn(AT + 'set_state_ntrans')
     if f is not None:
@@ -380,6 +384,9 @@ def pack_size_find_form(lib, f, rv):
         e = r[0]
         while e[0] == 'cast':
             e = e[1]
+        if e[0] == 'bin' and e[1] == 'Eq' and e[3] == ('const', 0) and e[2][0] == 'bin' and e[2][1] == 'Shr' and e[2][2] == n_par and const_eval(e[2][3]) is not None and 0 < const_eval(e[2][3]) < 64:
+            thr[k] = 1 << const_eval(e[2][3])          # (n >> s) == 0  <=>  n < 2^s
+            continue
         if not (e[0] == 'bin' and e[1] in ('Lt', 'Le') and const_eval(e[3]) is not None and any(x == n_par for x in walk(e[2]))):
             return None
         thr[k] = const_eval(e[3]) + (1 if e[1] == 'Le' else 0)        # n < thr[k]
@@ -473,7 +480,10 @@ def packing(ctx):
             ctx.check(R, merged == [[want_lo, want_hi]], 'pack_size:%d' % k,
                       'pack_size returns %d for n in %s but %d bytes hold exactly [%#x, %#x]: a value on the boundary is stored in too few bytes and read back truncated' % (
                           k, ' u '.join('[%#x, %#x]' % (a_, b_) for a_, b_ in merged), k, want_lo, want_hi), fn=f)
-        ctx.check(R, seen == set(range(1, 9)), 'pack_size:widths', 'pack_size must produce every width 1..8 (found %s)' % sorted(seen), fn=f)
+        if not seen and not ivs:
+            ctx.undecided(R, 'pack_size:widths', 'pack_size is written in a form the rule does not follow (no width decided)', fn=f)
+        else:
+            ctx.check(R, seen == set(range(1, 9)), 'pack_size:widths', 'pack_size must produce every width 1..8 (found %s)' % sorted(seen), fn=f)
     # pack_uint_in: byte i = (n >> 8i) as u8, written as buf[..nbytes]
     f = lib.fn('bytes::pack_uint_in')
     if f is None:
@@ -526,6 +536,25 @@ def packing(ctx):
                 if step:
                     break
         if not step:
+            # for (i, byte) in buf[..nbytes].iter_mut().enumerate() { *byte = (n >> (8 * i)) as u8 }  then write_all(that prefix)
+            npar = [l for l in range(1, f.arg_count + 1) if f.local_ty(l) == 'u64']
+            for p in explore(f, max_visits=1, havoc=True):
+                if p.end == 'cut' and npar:
+                    for (k, i, loc, st_) in p.stores():
+                        v = p.sym.rvalue_at(st_['rv'], (k, i))
+                        if v[0] == 'cast' and v[2] == 'u8' and v[1][0] == 'bin' and v[1][1] == 'Shr' and v[1][2] == ('param', f.local_name(npar[0]), npar[0]):
+                            sh = v[1][3]
+                            okmul = sh[0] == 'bin' and sh[1] == 'Mul' and ('const', 8) in (sh[2], sh[3]) and any(x[0] == 'field' and x[2] == '0' and any(is_call(y, 'Enumerate<I> as std::iter::Iterator>::next') or is_call(y, '::next') for y in walk(x)) for x in walk(sh))
+                            src = layout.iter_source(f, p.blocks[-1])
+                            oksrc = src is not None and src[0] == 'fwd' and src[1] and any(is_call(x, '::iter_mut') for x in walk(src[2])) and \
+                                any(x[0] == 'agg' and x[1].endswith('RangeTo') and any(y[0] == 'param' for y in walk(dict(x[2])['end'])) for x in walk(src[2]))
+                            if okmul and oksrc:
+                                step = True
+                elif p.end == 'return' and is_call(p.ret(), 'write_all'):
+                    a = p.ret()[2][1]
+                    if any(x[0] == 'agg' and x[1].endswith('RangeTo') and any(y[0] == 'param' for y in walk(dict(x[2])['end'])) for x in walk(a)):
+                        wr = wr or step or True
+        if not step:
             # wtr.write_all(&n.to_le_bytes()[..nbytes])
             for p in explore(f, max_visits=1, havoc=True):
                 for (k, bid, callee, args, t) in path_calls(p, expand=False):
@@ -575,6 +604,24 @@ def packing(ctx):
                         byte_is_item = any(x[0] == 'field' and x[2] == '1' and x[1][0] == 'param' and x[1][2] == 3 for x in walk(sh[2]))
                         pos_is_index = any(x[0] == 'field' and x[2] == '0' and x[1][0] == 'param' and x[1][2] == 3 for x in walk(sh[3]))
                         step = ok_sh and byte_is_item and pos_is_index
+        if not step:
+            # slice[..nbytes].iter().rev().fold(0, |n, &b| (n << 8) | b as u64): most significant byte last = little endian
+            for p in explore(f, max_visits=1, havoc=True):
+                if p.end != 'return':
+                    continue
+                rv = p.ret()
+                if is_call(rv, '::fold') and len(rv[2]) == 3 and rv[2][2][0] == 'closure' and const_eval(rv[2][1]) == 0:
+                    src = rv[2][0]
+                    ok_src = any(is_call(x, 'Iterator::rev') for x in walk(src)) and not any(is_call(x, 'Iterator::enumerate') for x in walk(src)) and \
+                        any(is_call(x, 'Index<I> for [T]>::index') and x[2][1][0] == 'agg' and x[2][1][1].endswith('RangeTo') for x in walk(src))
+                    r = _closure_ret(lib, rv[2][2], {})
+                    r = r[0] if r is not None else None
+                    if r is not None and ok_src and r[0] == 'bin' and r[1] in ('BitOr', 'Add', 'BitXor'):
+                        parts = [r[2], r[3]]
+                        shl = [x for x in parts if x[0] == 'bin' and x[1] == 'Shl' and x[3] == ('const', 8) and x[2][0] == 'param']
+                        byte = [x for x in parts if x[0] == 'cast' and x[2] == 'u64']
+                        if len(shl) == 1 and len(byte) == 1:
+                            step = True
         le_form = False
         if not step:
             # let mut buf = [0u8; 8]; buf[..packed.len()].copy_from_slice(packed); u64::from_le_bytes(buf)   with packed = &slice[..nbytes]
